@@ -27,6 +27,7 @@ var interpStd = map[string]bool{
 	"errors": true, "io": true, "bytes": true, "encoding/binary": true, "sort": true,
 	"unicode/utf8": true, "math/bits": true, "context": true, "slices": true, "cmp": true,
 	"internal/itoa": true, "math": true, "container/list": true, "internal/byteorder": true,
+	"bufio": true,
 }
 
 func pkgPathOf(fn *ssa.Function) string {
@@ -261,6 +262,45 @@ func init() {
 			m.hbRelease(p, "pool")
 			m.pools[p] = append(m.pools[p], a[1])
 			return nil
+		},
+		// net.Buffers.WriteTo on a writer that is not a net.Conn: exactly the library's loop (one Write per
+		// buffer, the count added up, NO retry after a short write without error, consume(n)).
+		"(*net.Buffers).WriteTo": func(m *Machine, c *frame, fn *ssa.Function, a []value) value {
+			vp := a[0].(*value)
+			bufs, _ := (*vp).([]value)
+			iv, ok := a[1].(ifaceV)
+			if !ok || iv.t == nil {
+				m.targetPanic("runtime error: invalid memory address or nil pointer dereference")
+			}
+			wt := m.prog.ImportedPackage("io").Type("Writer").Object().Type().Underlying().(*types.Interface)
+			f := m.lookupMethod(iv.t, wt.Method(0))
+			if f == nil {
+				m.abort("net.Buffers.WriteTo: no Write method on %v", iv.t)
+			}
+			total := int64(0)
+			var err value = ifaceV{}
+			for _, b := range bufs {
+				res := m.call(c, 0, f, []value{iv.v, b}).(tuple)
+				nb := m.concretize(m.asTerm(res[0]), "net.Buffers.WriteTo count", 1<<20, true, nil)
+				total += nb
+				if e, isI := res[1].(ifaceV); isI && e.t != nil {
+					err = e
+					break
+				}
+			}
+			// consume(total)
+			n := total
+			for len(bufs) > 0 {
+				b0, _ := bufs[0].([]value)
+				if int64(len(b0)) > n {
+					bufs[0] = b0[n:]
+					break
+				}
+				n -= int64(len(b0))
+				bufs = bufs[1:]
+			}
+			*vp = bufs
+			return tuple{mkConst(64, uint64(total)), err}
 		},
 		// os.Pipe / *os.File on a pipe: an in-engine byte queue. Contract modelled (package os, internal/poll):
 		// Write blocks never (unbounded kernel buffer: stated), writes all of b as ONE step that no other
